@@ -108,6 +108,9 @@ PROPS = {
                 {"name": "c05_dedup", "covers": ["both_waiting", "second_caller_got_value"], "quick": {"max_paths": 10000, "timeout": 600}},
                 {"name": "c05_split_transactions", "covers": ["completed", "union_returned"], "quick": {"max_paths": 10000, "timeout": 600}},
             ]},
+            {"engine": "D", "crate": "d_node", "harnesses": [
+                {"name": "c05_client_retries", "covers": ["read_done", "value", "error"], "quick": {"max_paths": 100000, "timeout": 600}},
+            ]},
             {"engine": "K", "crate": "k_misc", "harnesses": [
                 kh("c05_quorum_value_exact", "get_quorum_value: N(n) -> n for every non-zero n, One -> 1, All -> CLOSE_GROUP_SIZE, Majority -> least count above half", "all 2^64-1 values of n"),
             ]},
@@ -368,7 +371,7 @@ PROPS = {
     "C18": {
         "parts": [
             {"engine": "D", "crate": "d_boot", "harnesses": [
-                {"name": "c18_ops", "covers": ["add_new", "cleanup"], "quick": {"max_paths": 200000, "timeout": 900}, "thorough": {"env": {"C18_OPS": 4}, "max_paths": 3000000, "timeout": 3400}},
+                {"name": "c18_ops", "covers": ["add_new", "cleanup", "status_of_an_untracked_address"], "quick": {"max_paths": 200000, "timeout": 900}, "thorough": {"env": {"C18_OPS": 4}, "max_paths": 3000000, "timeout": 3400}},
                 {"name": "c18_shapes", "covers": ["stored", "refused"], "quick": {"max_paths": 1000, "timeout": 300}},
                 {"name": "c18_sync_flush", "covers": ["merge_with_cleanup", "merge_without_cleanup", "overlap"], "quick": {"max_paths": 100000, "timeout": 600}},
                 {"name": "c18_concurrent_flush", "covers": ["interleaved", "not_interleaved"], "quick": {"max_paths": 10000, "timeout": 600}},
